@@ -52,7 +52,8 @@ Fixpoint expected_steps (k:N) (empty:bool) (steps:list ostep) : list event :=
   match steps with
   | [] => if empty then [DropVT] else []
   | s :: r => (if empty then [CreateVT k] else []) ++ Running k :: flat_map (item_events k) (os_body s)
-              ++ map (VersionStmt k) (vidx (os_nver s)) ++ expected_steps (N.succ k) (os_empty_after s) r
+              ++ map (VersionStmt k) (vidx (os_nver s)) ++ map (fun p => Stmt k p false) (os_hooks s)
+              ++ expected_steps (N.succ k) (os_empty_after s) r
   end.
 Definition expected_content (r:run) : list event := expected_steps 0 (r_init_empty r) (r_steps r).
 
@@ -90,7 +91,7 @@ Definition C18_events_hold (tddl per_mig:bool) (r:run) (evs:list event) : Prop :
 (* ---- a run cut short by an exception (in the last step of r_steps) *)
 Definition step_content (k:N) (empty:bool) (s:ostep) : list event :=
   (if empty then [CreateVT k] else []) ++ Running k :: flat_map (item_events k) (os_body s)
-  ++ map (VersionStmt k) (vidx (os_nver s)).
+  ++ map (VersionStmt k) (vidx (os_nver s)) ++ map (fun p => Stmt k p false) (os_hooks s).
 Fixpoint expected_cut (k:N) (empty:bool) (steps:list ostep) : list event :=
   match steps with
   | [] => []
